@@ -663,7 +663,7 @@ theorem request_on_vt_is_grid_step {caps : TermPen.Caps} {t0 t : GridTerm} {s0 s
   ⟨(req_sim h moved hcur r hr).1, (req_sim h moved hcur r hr).2.1⟩
 
 open Tickit.RBFlushX in
-/-- **C04_xterm_screen_partial**: `C04_xterm_screen` under two extra hypotheses - the requests of the flush are ones
+/-- **xterm_screen_of_runOK**: `C04_xterm_screen` under two extra hypotheses - the requests of the flush are ones
     the simulation covers (`RunOK`, evaluated along the grid terminal's run: gotos at non-negative positions, pens the
     driver can say, erases outside reverse video, print requests whose bytes are well-formed UTF-8 of printable
     characters that fit on the line)
@@ -672,7 +672,7 @@ open Tickit.RBFlushX in
     pen asks for, written exactly once; untouched where the buffer skips.  The composition: `flush_stream_any_buffer`
     (the bytes are the driver's writes in order), `reqs_sim` (the VT screen stays in step with the grid terminal),
     `flush_spec_screen` (the grid terminal meets `cellOK`), `sim_xcellOK`. -/
-theorem C04_xterm_screen_partial (caps : TermPen.Caps) (n : Nat) (rb : RB) (s : XScreen) (cache : Pen)
+theorem xterm_screen_of_runOK (caps : TermPen.Caps) (n : Nat) (rb : RB) (s : XScreen) (cache : Pen)
     (hwf : FlushWF rb) (hin : ∀ l c, s.lines ≤ l ∨ s.cols ≤ c → want rb l c = .keep)
     (hl : 0 < s.lines) (hc : 0 < s.cols) (hg : s.ps = .ground) (he : PenEncodable caps cache)
     (ha : s.attrs = expectAttrs caps cache)
@@ -688,6 +688,32 @@ theorem C04_xterm_screen_partial (caps : TermPen.Caps) (n : Nat) (rb : RB) (s : 
     reqs_sim (flushToTerm rb).reqs (gridOf s cache) s false h0 (by intro h; cases h) hrun
   obtain ⟨_, _, hcell⟩ := flush_spec_screen rb hwf (gridOf s cache) s.lines hin
   exact sim_xcellOK hs l c _ rfl (hrv l c) (hcell l c)
+
+open Tickit.RBFlushX in
+/-- **C04_xterm_screen_partial**: `C04_xterm_screen` under two extra hypotheses, both about the buffer's requests and
+    content alone: `StaticOK` of the flush's request list (every erase and print comes after a goto; erases have at
+    least one cell, are not `TICKIT_NO` and come when the last pen set has no reverse video; the bytes of every print
+    request are well-formed UTF-8 of printable code points that have a width; pens the driver can say; columns not
+    negative) and no erase cell asking for reverse video.  That the requests fit the screen (no wrap, no clamped
+    movement) is not assumed: it follows from "the content lies within the screen" (`Calm`, the by-product of
+    `flush_spec_screen`'s proof; `runOK_of_calm`).  Conclusion as in `C04_xterm_screen`, for every cell: through an
+    output buffer of any size the VT screen shows the buffer's content over the prior screen, each cell in the rendition
+    its own pen asks for, written exactly once.  Still missing for `C04_xterm_screen` itself: `StaticOK` from `FlushWF`,
+    `TextsStrict`, `CharsPrintable` and the pens of the cells (an induction over `flushCols`: the slices of TEXT runs, the
+    glyphs of LINE batches), and erases under reverse video (the driver prints spaces: the VT cell then holds a space in
+    full rendition, and the cursors part until the next goto - `Sim`/`Cur` would have to be weakened to `glyphSame`). -/
+theorem C04_xterm_screen_partial (caps : TermPen.Caps) (n : Nat) (rb : RB) (s : XScreen) (cache : Pen)
+    (hwf : FlushWF rb) (hin : ∀ l c, s.lines ≤ l ∨ s.cols ≤ c → want rb l c = .keep)
+    (hl : 0 < s.lines) (hc : 0 < s.cols) (hg : s.ps = .ground) (he : PenEncodable caps cache)
+    (ha : s.attrs = expectAttrs caps cache)
+    (hst : StaticOK caps false (Pen.getBool cache.reverse) (flushToTerm rb).reqs)
+    (hrv : ∀ l c p, want rb l c = .glyph .blank p → Pen.getBool p.reverse = false) :
+    ∀ l c, xcellOK caps (want rb l c) (s.cells l c)
+      ((s.interp (xflush caps n cache (flushToTerm rb).reqs).stream).cells l c) = true := by
+  obtain ⟨_, _, hcalm⟩ := flush_spec_of_text_within (W := (gridOf s cache).cols) (L := s.lines) hwf (within_of_want hin)
+    (fun _ _ h1 h2 h3 hr hs => text_run ⟨h1, h2⟩ h3 hr hs) (gridOf s cache) (Int.le_refl _)
+  exact xterm_screen_of_runOK caps n rb s cache hwf hin hl hc hg he ha
+    (runOK_of_calm caps s.lines _ (gridOf s cache) false hcalm hst) hrv
 
 /-- U+00E9 in a CHAR cell at (0,1) and an erase run of three cells on line 1 of a 2×4 buffer. -/
 def simXRB : RB := eraseAt (charAt (RB.new 2 4 0 0) 0 1 0xe9) 1 0 3
@@ -710,6 +736,18 @@ example : RunOK ⟨false, false⟩ (XScreen.fresh 2 4).lines false (gridOf (XScr
       exact ⟨by decide, by decide +kernel⟩, by decide, by simp only [Fits]; decide +kernel⟩,
     ⟨by decide, by decide⟩, by unfold ReqOK PenEncodable; decide,
     ⟨rfl, by decide, by decide, by decide +kernel⟩, trivial⟩
+
+open Tickit.RBFlushX in
+/-- Non-vacuity of `C04_xterm_screen_partial`: its hypothesis about the requests holds of `simXRB`. -/
+example : StaticOK ⟨false, false⟩ false (Pen.getBool ({} : Pen).reverse) (flushToTerm simXRB).reqs := by
+  rw [simXRB_requests]
+  refine ⟨by decide, by unfold PenEncodable; decide,
+    ⟨rfl, by decide, [0xe9], by
+      intro cp hcp
+      simp only [List.mem_singleton] at hcp
+      subst hcp
+      exact ⟨by decide, by decide +kernel⟩, by decide⟩,
+    by decide, by unfold PenEncodable; decide, ⟨rfl, by decide, by decide, by decide⟩, trivial⟩
 
 example :
     (((Tickit.RBFlushX.XScreen.fresh 2 4).interp
